@@ -10,6 +10,12 @@ CHECKS = {
          "trusts the Go race detector and reflection-based read-only snapshots; objects a config merely refers to are compared by identity", "§3 C19"),
 }
 NOT_YET = {}
+CHECKS["C11"] = ("exploration", "runtime monitoring: lone-instance replay monitor (trace of each instance in a group vs the projected script on a fresh lone instance) + Go race detector on a concurrent variant",
+  "PRNG groups of 2-5 unlinked instances (same or different compiled modules, one runtime or two sharing a compilation cache, both engines) run an interleaved script; a monitor compares each instance's canonical trace (results, traps, host log, memory/global/table digests incl. dropped-segment effects) with the trace of the projected script on a lone instance; one goroutine per instance under the race detector. Held on the groups explored only.",
+  "the harness's host functions keep per-instance state; WASI descriptors/stdio isolation is covered only as far as generated programs reach it (not at all in this driver)", "§3 C11")
+CHECKS["C12"] = ("exploration", "runtime monitoring: differential trace monitor over the configuration lattice (base point vs every point), separate processes for warm disk cache",
+  "Full lattice of 768 configuration points (8 cache modes incl. warm directory from another process and shared-cache orders with closes, capacity-from-max, guard-page allocator, debug info, custom sections, close-on-context-done, 3 listener sets, 2 engines) for a few programs plus thousands of PRNG (program, point) pairs; the guest's canonical trace at the point must equal the base trace. Held on the pairs explored only.",
+  "error text is not compared (only class); listener callbacks are C20's business; core features and memory limit are semantic and fixed", "§3 C12")
 CHECKS["C01"] = ("exploration", "runtime monitoring: differential trace monitor (interpreter vs compiler) over generated programs in supervised children",
   "By-construction-valid generated programs (all enabled features, NaN-canonicalised, fuel-terminated) with PRNG call scripts are run on both engines; a monitor compares canonical traces (result bits, trap kind, host-call log, memory/global/table digests after every step) event by event; crashes and internal errors are violations, stack exhaustion is inconclusive. Held on the programs explored only.",
   "trusts the generator's NaN canonicalisation and fuel; errors shared by both engines are invisible here (C05 covers numerics); arm64 back end not executed", "§3 C01")
